@@ -122,7 +122,9 @@ def gen_length(rng):
 
 def gen_case(rng, uid, force=None):
     force = force or {}
-    nsets = rng.randint(1, 3)
+    layout = force.get('layout') or rng.choice(['single', 'single', 'assoc', 'mapped', 'mapped', 'saved',
+                                                'assocn', 'assocn'])
+    nsets = rng.randint(2, 4) if layout == 'assocn' else rng.randint(1, 3)
     sets = []
     if 'sets' in force:                      # a second store over field sets that are already registered
         sets = force['sets']
@@ -139,16 +141,39 @@ def gen_case(rng, uid, force=None):
         sets.append({'fields': fields})
     if 'sets' not in force and (force.get('tp_str') or rng.random() < 0.03):   # F-C03c stream: a per-point string field
         sets[0]['fields'].append({'shape': 'TP', 'dtype': 'str', 'req': True})
-    layout = force.get('layout') or rng.choice(['single', 'single', 'assoc', 'mapped', 'mapped', 'saved'])
+    if layout == 'assocn' and nsets < 2:
+        layout = 'assoc'
     ids = list(range(1, nsets + 1))
     apart = sorted(rng.sample(ids, rng.randint(1, nsets))) if layout in ('assoc', 'mapped') else []
     if layout == 'saved' and rng.random() < 0.5:         # save() of an in-memory store, with or without associated file
         apart = sorted(rng.sample(ids, rng.randint(1, nsets)))
+    parts, quiet_sets, quiet_from = [], [], None
+    if layout == 'assocn':
+        # base file + 2-3 associated files, the field sets distributed over them in any way (the base file may keep
+        # some or none of the extra field sets)
+        k = rng.randint(2, min(3, nsets))
+        chosen = rng.sample(ids, rng.randint(k, nsets))
+        cuts = sorted(rng.sample(range(1, len(chosen)), k - 1))
+        parts = [sorted(chosen[a:b]) for a, b in zip([0] + cuts, cuts + [len(chosen)])]
+        apart = sorted(chosen)
+        if 'sets' not in force and rng.random() < 0.7:
+            # a NON-LAST associated file that holds only optional (non-string) fields, all of them unset in the
+            # trailing records of the store (or in the middle): nothing but the trajectory coordinate is written
+            # to that file for those records
+            quiet_sets = parts[rng.randrange(len(parts) - 1)]
+            for i in quiet_sets:
+                for fld in sets[i - 1]['fields']:
+                    fld['req'] = False
+                    if fld['dtype'] == 'str':
+                        fld['dtype'] = 'float64'
     # species: a pool with gaps for the whole store, then per field set a sub-pool for the first trajectory
     pool = sorted(rng.sample(range(NSPECIES), rng.choice([0, 1, 2, 2, 3, 3, 4, 5, 8])))
     if rng.random() < 0.3:
         pool = list(range(rng.randint(1, 4)))                # an initial segment of the enum: the case the tests use
-    ntraj = rng.randint(1, 3)
+    ntraj = rng.randint(2, 4) if layout == 'assocn' else rng.randint(1, 3)
+    if quiet_sets:
+        quiet_from = rng.choice([0, 1, ntraj - 1, ntraj - 1, ntraj - 2 if ntraj > 2 else 1])
+        quiet_to = ntraj if rng.random() < 0.75 else max(quiet_from + 1, ntraj - 1)     # trailing, or in the middle
     indexable = rng.random() < 0.5
     trajs = []
     used = {i: set() for i in ids}                           # species used by the first trajectory, per field set
@@ -173,6 +198,8 @@ def gen_case(rng, uid, force=None):
                 if j == 0 and isinstance(v, dict) and fld['shape'] in ('TS', 'TSP', 'TSM'):
                     used[i] |= {int(s) for s in v}
                 row.append(v)
+            if i in quiet_sets and quiet_from <= j < quiet_to:
+                row = [None] * len(row)
             vals[str(i)] = row
         trajs.append({'n': n, 'base': base, 'vals': vals})
     if out_of_dim:
@@ -195,9 +222,9 @@ def gen_case(rng, uid, force=None):
                     v = {**v, **one}
                     trajs[-1]['vals'][str(i)][k] = v
                     return {'uid': uid, 'fs_uid': force.get('fs_uid', uid), 'sets': sets, 'layout': layout,
-                            'apart': apart, 'trajs': trajs, 'out_of_dim': True, 'ood_set': i}
+                            'apart': apart, 'parts': parts, 'trajs': trajs, 'out_of_dim': True, 'ood_set': i}
     return {'uid': uid, 'fs_uid': force.get('fs_uid', uid), 'sets': sets, 'layout': layout, 'apart': apart,
-            'trajs': trajs, 'out_of_dim': False}
+            'parts': parts, 'trajs': trajs, 'out_of_dim': False}
 
 
 # ---------------------------------------------------------------------------------------------------
@@ -387,6 +414,8 @@ def err_class(e: BaseException) -> str:
         return 'EIndexBound'
     if isinstance(e, RuntimeError) and 'HDF error' in str(e):
         return 'EHdf'
+    if isinstance(e, IndexError):
+        return 'EIndex'
     return {'ValueError': 'EValue', 'TypeError': 'EType', 'AssertionError': 'EAssert',
             'AttributeError': 'EAttr', 'StopIteration': 'EStopIter'}.get(type(e).__name__,
                                                                          f'EOther:{type(e).__name__}:{e}'[:200])
@@ -516,7 +545,9 @@ def run_case_impl(case, tmp: Path) -> CaseRun:
 
     base_path = tmp / f'{uid}.nc'
     apart_path = tmp / f'{uid}_apart.nc'
-    for p in (base_path, apart_path):
+    parts = case.get('parts') or []
+    part_paths = [tmp / f'{uid}_part{k}.nc' for k in range(len(parts))]
+    for p in (base_path, apart_path, *part_paths):
         if p.exists():
             p.unlink()
 
@@ -527,6 +558,8 @@ def run_case_impl(case, tmp: Path) -> CaseRun:
     kwargs = {'base_file': base_path}
     if layout == 'assoc':
         kwargs['associated_files'] = [(apart_path, [names[i] for i in apart])]
+    if layout == 'assocn':
+        kwargs['associated_files'] = [(pp, [names[i] for i in part]) for pp, part in zip(part_paths, parts)]
     if layout == 'saved':
         kwargs = {}                          # an in-memory store, persisted afterwards with save()
     ts = TrajectoryStore.create(**kwargs)
@@ -597,7 +630,7 @@ def run_case_impl(case, tmp: Path) -> CaseRun:
     # ---- reopen and read everything back ----------------------------------------------------------
     kwargs = {'base_file': base_path}
     if apart:
-        kwargs['associated_files'] = [apart_path]
+        kwargs['associated_files'] = list(part_paths) if layout == 'assocn' else [apart_path]
     try:
         ts = TrajectoryStore.open(**kwargs)
     except BaseException as e:  # noqa: BLE001
@@ -644,7 +677,7 @@ def run_case_impl(case, tmp: Path) -> CaseRun:
             ts.close()
         except Exception:  # noqa: BLE001
             pass
-        for p in (base_path, apart_path):
+        for p in (base_path, apart_path, *part_paths):
             if p.exists():
                 p.unlink()
     return run
@@ -701,7 +734,8 @@ def coq_case(case, run: CaseRun, fixed: bool) -> str:
     # the same _write_trajectory / _write_to_nc_var as add(): in the model it IS the single-file / base+associated case
     ly = {'single': 'Single', 'assoc': f'(Assoc {coq_natlist(case["apart"])})',
           'mapped': f'(Mapped {coq_natlist(case["apart"])})',
-          'saved': f'(Assoc {coq_natlist(case["apart"])})' if case['apart'] else 'Single'}[case['layout']]
+          'saved': f'(Assoc {coq_natlist(case["apart"])})' if case['apart'] else 'Single',
+          'assocn': '(AssocMany [' + '; '.join(coq_natlist(p) for p in (case.get('parts') or [])) + '])'}[case['layout']]
     ts = '[' + '; '.join('[' + '; '.join('[' + '; '.join(coq_fval(c) for c in w[str(i)]) + ']'
                                            for i in range(len(sc))) + ']' for w in run.written) + ']'
     return (f'run_case {"true" if fixed else "false"} {schema} {ly} {coq_natlist(run.worder)} '
